@@ -11,7 +11,7 @@ def prop( pid, rules, decides, not_decided, technique, thorough_rules=(), assump
                        assumptions=list( assumptions ))
 
 
-prop( 'C05', [ 'S-STATUS', 'D-VALIDATE', 'W-ATTR', 'T-ALLOWED', 'T-TYPENAMES', 'K-KEYPASS', 'G-INIT', 'D-PATHSTOP', 'L-TEXTCODEC', 'D-UNPACKFMT', 'T-TYPEDLOOP', 'D-OWNPATH', 'T-SYMBOL', 'W-PRINT', 'F-FRAG', 'F-STATUS' ],
+prop( 'C05', [ 'S-STATUS', 'D-VALIDATE', 'W-ATTR', 'T-ALLOWED', 'T-TYPENAMES', 'K-KEYPASS', 'G-INIT', 'D-PATHSTOP', 'L-TEXTCODEC', 'D-UNPACKFMT', 'T-TYPEDLOOP', 'D-OWNPATH', 'T-SYMBOL', 'W-PRINT', 'F-FRAG', 'F-STATUS', 'D-NOSUCH', 'W-ASSERT' ],
       decides='T-SYMBOL: the canonical form of a tag name is its lower-case spelling ( no case folding that maps distinct ISO-8859-1 names onto one symbol ), so a request naming an unknown tag cannot resolve to a configured one.  T-TYPEDLOOP as for C01.  D-VALIDATE also: the WHOLE requested extent ( path index + elements ) is asserted to lie inside the tag for reads and writes alike, ahead of any fragment being served or stored.  D-OWNPATH: in Object.request and Logix.request every access to the handler\'s own attributes is dominated by the assertion that the request path names this object (class and instance of resolve( data.path )): a request for an unknown object is refused, never served from or stored into the attribute of the same number.  L-TEXTCODEC: per codec class the producer encodes text with the character set its parser decodes with (an accepted STRING / SSTRING write stays readable and reads back equal).  D-UNPACKFMT: Set Attribute Single converts EVERY received element with the Attribute\'s own struct format (on every path to the store), so the stored values are in the tag type\'s range and the tag stays readable.  D-PATHSTOP (unknown-tag clause): device.resolve never skips a SYMBOLIC path segment - its skip test is false on every symbolic cell of the decision table and skipping is per segment ( continue, not break ), so a name behind a resolved tag ( A.foo, A[1].foo ) is resolved or refused, not served from A.  S-STATUS: typestate of data.status over the statement CFG of every CIP request handler - at every statement inside '
               'the try that may raise, the status is a known non-success constant (so a refused request is answered with a failure), '
               'the handler never re-raises or resets it, and at the named program points of Logix.request the codes are 0x05 (resolve/lookup), '
@@ -27,7 +27,7 @@ prop( 'C05', [ 'S-STATUS', 'D-VALIDATE', 'W-ATTR', 'T-ALLOWED', 'T-TYPENAMES', '
       not_decided='that values read back equal the converted values written (value/history dependent).',
       technique='constant typestate on a statement CFG with exception edges; dominance / must-pass-through with correlated branches; service feasibility by test folding; table interval containment' )
 
-prop( 'C12', [ 'T-CLIENT-TYPES', 'P-BUNDLE', 'P-FRESH', 'T-PATHSYNTAX', 'S-COMPLETE', 'T-OPOFFSET', 'T-PATHDEFAULTS', 'F-CLIENT', 'T-OPVALUES', 'K-TIMEOUT', 'K-VALIDATE', 'T-ATTROPS', 'T-METHODS', 'W-STRIPSET', 'T-OPTYPE' ],
+prop( 'C12', [ 'T-CLIENT-TYPES', 'P-BUNDLE', 'P-FRESH', 'T-PATHSYNTAX', 'S-COMPLETE', 'T-OPOFFSET', 'T-PATHDEFAULTS', 'F-CLIENT', 'T-OPVALUES', 'K-TIMEOUT', 'K-VALIDATE', 'T-ATTROPS', 'T-METHODS', 'W-STRIPSET', 'T-OPTYPE', 'W-ASSERT' ],
       decides='T-OPVALUES: the effective options of the reader that splits a write\'s value list are comma separator, double-quote quoting and skipinitialspace (blank-padded lists mean the values they spell).  T-PATHSYNTAX also: format_path emits an element index at the component it follows (the symbolic branch flushes a pending index), so Foo[1].Boo formats and parses back to the same segments.  P-BUNDLE: in connector.issue the keep-collecting condition conjoins the size test with equality of both route_path and '
               'send_path with those of the bundle, every yielded record carries ( index, sender_context ) of its wire request, sender_context is '
               'always derived from index, and index advances at most once per operation and after every flushed bundle; T-PATHSYNTAX: every '
@@ -37,7 +37,7 @@ prop( 'C12', [ 'T-CLIENT-TYPES', 'P-BUNDLE', 'P-FRESH', 'T-PATHSYNTAX', 'S-COMPL
       not_decided='equality of result sequences across depth/bundling settings (dynamic).',
       technique='table extraction from AST + interval containment; guard-shape checks' )
 
-prop( 'C16', [ 'T-RESERVED', 'D-DELEGATE', 'D-RESOLVE', 'D-UNPACK', 'D-ITER', 'D-ATOMIC', 'D-INDEXSPLIT' ],
+prop( 'C16', [ 'T-RESERVED', 'D-DELEGATE', 'D-RESOLVE', 'D-UNPACK', 'D-ITER', 'D-ATOMIC', 'D-INDEXSPLIT', 'W-ASSERT' ],
       decides='D-ITER: key iteration descends only into values tested to be levels - a list only under a test covering every element.  T-RESERVED also: the leaf store and the creation of an interior level ( super().setdefault( name, dotdict() )) are both dominated, on the CFG of __setitem__, by the refusing test of the name against __invalid_keys__ / the dunder prefix.  T-RESERVED: every non-dunder name that ordinary attribute lookup finds on a dotdict before __getattr__ (methods '
               'and class attributes of dotdict_base plus dict\'s public API) is refused as a key by the guarded leaf store; '
               'D-DELEGATE: attribute access, get, setdefault and membership are defined through __getitem__/__setitem__ and all '
@@ -45,7 +45,7 @@ prop( 'C16', [ 'T-RESERVED', 'D-DELEGATE', 'D-RESOLVE', 'D-UNPACK', 'D-ITER', 'D
       not_decided='path semantics over operation sequences (lookup/iteration/copy agreement is a dynamic, history-dependent claim).',
       technique='name-set comparison over class AST; delegation-shape checks' )
 
-prop( 'C19', [ 'M-EXTENT', 'M-TILE', 'M-BANK', 'M-LIMIT', 'M-PIECES', 'M-SNAPSHOT' ],
+prop( 'C19', [ 'M-EXTENT', 'M-TILE', 'M-BANK', 'M-LIMIT', 'M-PIECES', 'M-SNAPSHOT', 'W-ASSERT' ],
       decides='M-PIECES: every range merge yields is a piece of a shatter() generator that is consumed by the emitting loop only (a second use of the generator object would leave nothing to yield).  M-EXTENT: in merge\'s sorted sweep the running length update in the merge branch depends on its previous value '
               '(monotone join), so a nested/duplicate range cannot shrink the extent; M-TILE: shatter yields (address, taken) once, '
               'advances address and shrinks count by the same taken = min( count, limit ); M-BANK: the merge condition, evaluated as a decision table over a grid of ( running range, next start, reach ) cells, merges exactly when the next range begins inside the running one ( whatever its 10000-block ) or lies in the same 10000-block with a gap below the reach; an empty range never extends the running range; over sorted '
@@ -61,7 +61,7 @@ prop( 'C20', [ 'T-TNET', 'P-CHAIN', 'G-CHUNK', 'G-REF', 'P-SEPARATORS' ],
       not_decided='value round trip for all values, nesting depth; chunking beyond the separator / chain-unmodified / chunk-transparent-grammar clauses (dynamic).',
       technique='encoder/decoder idiom classification over dispatch chains (AST pattern matching); grammar extraction' )
 
-prop( 'C03', [ 'W-ATTR', 'D-VALIDATE', 'R-SNAPSHOT', 'D-TYPE', 'T-TYPENAMES', 'T-ATTRKEYS', 'T-SYMBOL', 'D-PATHSTOP', 'K-KEYPASS', 'T-RETAG', 'T-TAGLOOP', 'D-OWNPATH', 'D-UNPACKFMT', 'F-FRAG', 'P-ROUTEFIRST', 'F-STATUS' ],
+prop( 'C03', [ 'W-ATTR', 'D-VALIDATE', 'R-SNAPSHOT', 'D-TYPE', 'T-TYPENAMES', 'T-ATTRKEYS', 'T-SYMBOL', 'D-PATHSTOP', 'K-KEYPASS', 'T-RETAG', 'T-TAGLOOP', 'D-OWNPATH', 'D-UNPACKFMT', 'F-FRAG', 'P-ROUTEFIRST', 'F-STATUS', 'W-ASSERT' ],
       decides='T-TAGLOOP: main()\'s per-tag configuration loop reads no local on a path of the iteration that has not assigned it (no address / attribute carried over from the previous tag argument).  T-RETAG: setup_tag stores the CONFIGURED Attribute into the instance\'s attribute table at both sites (creation, replacement of an existing tag) - a replacement that stores the existing Attribute back keeps serving the array of an earlier configuration.  storage-discipline clauses only.  W-ATTR: tags are mutated only by statements reachable for the write services '
               '(Write Tag, Write Tag Fragmented, Set Attribute Single) - no read service and no refused request changes a tag; '
               'D-VALIDATE: the tag store is dominated by type and range validation, the stored slice is the validated (beg,end), the write-capacity '
@@ -75,7 +75,7 @@ prop( 'C03', [ 'W-ATTR', 'D-VALIDATE', 'R-SNAPSHOT', 'D-TYPE', 'T-TYPENAMES', 'T
       not_decided='read-your-writes over request histories, slice index arithmetic, symbolic-name resolution, per-element isolation (value/history dependent).',
       technique='who-may-write analysis via service feasibility on the CFG; AST shape checks; table checks' )
 
-prop( 'C06', [ 'X-SERVICES', 'P-REPLYBIT', 'P-ONE', 'P-PROCEED', 'D-ECHO', 'S-STATUS', 'P-ROUTE', 'E-REPLY', 'T-CONTEXT', 'P-EACH' ],
+prop( 'C06', [ 'X-SERVICES', 'P-REPLYBIT', 'P-ONE', 'P-PROCEED', 'D-ECHO', 'S-STATUS', 'P-ROUTE', 'E-REPLY', 'T-CONTEXT', 'P-EACH', 'U-NULLADDR' ],
       decides='X-SERVICES: for Object, Message_Router, Connection_Manager and Logix the registered service parsers, the services '
               'request() dispatches and the services produce() encodes agree, and every *_RPY constant is *_REQ | 0x80; '
               'P-REPLYBIT: on every path of every handler to the reply producer the reply bit is set at most once, exactly once on '
@@ -133,7 +133,7 @@ prop( 'C18', [ 'T-RECORD', 'H-PARSE', 'H-FILES', 'H-NATURAL', 'H-OPENER', 'H-PAC
       technique='writer/reader field-table agreement (AST patterns); forward data-flow and path counting over a statement CFG of '
                 'parse_record / reader.open / loader.load; typestate (finite abstract-state sets to a fixpoint) for the strict flag; decision-table evaluation of the file-selection predicates; state-table exhaustiveness' )
 
-prop( 'C04', [ 'F-FRAG', 'F-STATUS', 'D-VALIDATE', 'W-ATTR', 'S-EXT', 'F-CLIENT', 'T-TYPEDLOOP', 'L-SPEC' ],
+prop( 'C04', [ 'F-FRAG', 'F-STATUS', 'D-VALIDATE', 'W-ATTR', 'S-EXT', 'F-CLIENT', 'T-TYPEDLOOP', 'L-SPEC', 'W-ASSERT' ],
       decides='T-TYPEDLOOP: in the typed_data grammar every element loop is closed on its own type (the collector behind TYPE() takes .TYPE and returns to the head that leads to TYPE()), so the second and later elements of a fragment are parsed with the type of the first.  the form of the fragment arithmetic, by algebra on a linear normal form and by structure, never by evaluating it on sample '
               'numbers.  F-FRAG (Logix.reply_elements): the byte offset is split into quotient and remainder by the element size '
               '( off // siz, off - q * siz | off % siz | divmod ), siz = attribute.parser.struct_calcsize, the offset is honoured for the '
@@ -190,7 +190,7 @@ prop( 'C02', [ 'G-CHUNK', 'G-FRAME', 'P-ACT', 'P-ONE', 'P-CHAIN', 'R-ISO', 'N-RE
       technique='grammar-graph extraction by abstract interpretation of the builder code + edge-kind analysis; path effect counting and '
                 'must-pass-through on the CFG; AST idiom matching on the framework loops' )
 
-prop( 'C07', [ 'A-OFFSETS', 'P-ORDER', 'P-EACH', 'P-CLOSURE', 'R-LOCK-5', 'R-LOCK-6', 'P-FRESH', 'P-BUNDLE', 'S-RESOLVE', 'D-PATHSTOP', 'S-STATUS', 'R-STATELESS', 'D-OWNPATH', 'S-LONE', 'P-ROUTEFIRST', 'P-ONCE' ],
+prop( 'C07', [ 'A-OFFSETS', 'P-ORDER', 'P-EACH', 'P-CLOSURE', 'R-LOCK-5', 'R-LOCK-6', 'P-FRESH', 'P-BUNDLE', 'S-RESOLVE', 'D-PATHSTOP', 'S-STATUS', 'R-STATELESS', 'D-OWNPATH', 'S-LONE', 'P-ROUTEFIRST', 'P-ONCE', 'D-NOSUCH', 'W-ASSERT' ],
       decides='P-EACH / P-CLOSURE also ( one member cannot take its neighbours with it ): the per-member dispatch in Message_Router.request and the per-member parse in the closure are each protected inside their member loop ( defect AM, repaired: an unsupported service used to fail the whole bundle, an unparseable member used to truncate it silently ).  D-OWNPATH: see C05.  A-OFFSETS: the two offset-table emitters of Message_Router.produce and the two slice bounds of the parser closure '
               'normalise (linear-expression normaliser) to 2 + 2*N relative to the running offset, the count field is the number of '
               'offsets, members are sliced between consecutive offsets (last to the end) and appended in order; P-ORDER: in both produce '
@@ -202,7 +202,7 @@ prop( 'C07', [ 'A-OFFSETS', 'P-ORDER', 'P-EACH', 'P-CLOSURE', 'R-LOCK-5', 'R-LOC
       not_decided='equality of each member\'s reply with its standalone reply, and of the resulting tag state (dynamic).',
       technique='linear normalisation of offset arithmetic; iteration/accumulation idiom pairing; per-iteration effect counting on the CFG' )
 
-prop( 'C08', [ 'G-PROGRESS', 'G-BOUND', 'G-REF', 'R-PROGRESS', 'R-LIMIT', 'E-CONTAIN', 'R-ISO', 'S-STATUS', 'W-ATTR', 'D-VALIDATE', 'T-ALLOWED', 'G-PRIMS', 'G-INIT', 'P-ACT', 'P-CLOSURE', 'G-EXACT', 'P-ONCE' ],
+prop( 'C08', [ 'G-PROGRESS', 'G-BOUND', 'G-REF', 'R-PROGRESS', 'R-LIMIT', 'E-CONTAIN', 'R-ISO', 'S-STATUS', 'W-ATTR', 'D-VALIDATE', 'T-ALLOWED', 'G-PRIMS', 'G-INIT', 'P-ACT', 'P-CLOSURE', 'G-EXACT', 'P-ONCE', 'U-NULLADDR', 'G-PEEK', 'W-ASSERT' ],
       decides='P-ACT / P-CLOSURE (no tag is altered except through a COMPLETE request): the server hands a frame to the processor only after the framing engine finished (no exit from the parse loop on EOF), and a member of a Multiple Service Packet joins the list of requests to execute only after its own parse was asserted terminal.  termination-shape, containment and no-corruption clauses.  G-PROGRESS: in every extracted grammar level (all 25 registered '
               'service machines and 28 stand-alone machines) there is no cycle of non-consuming states, every data-counted repeat consumes '
               '>= 1 symbol per cycle, every sub-machine has a terminal state; G-BOUND/G-REF: every unbounded consumer lies inside a limit '
@@ -214,7 +214,7 @@ prop( 'C08', [ 'G-PROGRESS', 'G-BOUND', 'G-REF', 'R-PROGRESS', 'R-LIMIT', 'E-CON
       not_decided='wall-clock bounds, recursion depth of nested bundles, memory, that other sessions keep being served (scheduling).',
       technique='SCC/cycle analysis with a consumption model over extracted grammar graphs; reference resolution; CFG typestate; zero-count call rules' )
 
-prop( 'C10', [ 'G-BOUND', 'G-REF', 'R-LIMIT', 'R-SENT', 'R-REPEAT', 'G-PRIMS', 'G-LIMITS', 'G-GATE', 'T-SEGMENTS' ],
+prop( 'C10', [ 'G-BOUND', 'G-REF', 'R-LIMIT', 'R-SENT', 'R-REPEAT', 'G-PRIMS', 'G-LIMITS', 'G-GATE', 'T-SEGMENTS', 'G-PEEK', 'W-ASSERT' ],
       decides='G-LIMITS: every CPF item parser and every CIP command parser created from the dispatch tables carries the constant limit naming the length parsed ahead of it ( no sibling exempted ), and no limit is hung on a state that consumes nothing.  G-BOUND: every unbounded consumer (element loop, ".*" string, raw-to-end payload) of every run-root machine lies inside a '
               'limit naming a parsed length or a constant, or is the tail of a machine run on a finite buffer (one documented exemption: '
               'the unrecognised CPF item, which is not given a limit); G-REF: each of the ~1250 data-path references in limit=/repeat=/'
@@ -255,7 +255,7 @@ prop( 'C13', [ 'S-COMPLETE', 'P-MATCH', 'P-FRESH', 'P-BUNDLE', 'P-DISCARD', 'P-A
       not_decided='behaviour at each byte offset of a cut - the rules show that every failure kind has a raising/terminating path, not what the kernel delivers.',
       technique='sibling cross-check of drivers (counter feed analysis); dominance on the CFG; guard-shape matching; call-site protection (lexical with/try)' )
 
-prop( 'C15', [ 'B-ROUTE', 'D-REFUSE', 'C-MAIN', 'S-STATUS', 'T-SEGMENTS', 'P-BUNDLE', 'T-ROUTETEXT', 'K-ROUTEKEY' ],
+prop( 'C15', [ 'B-ROUTE', 'D-REFUSE', 'C-MAIN', 'S-STATUS', 'T-SEGMENTS', 'P-BUNDLE', 'T-ROUTETEXT', 'K-ROUTEKEY', 'W-ASSERT' ],
       decides='K-ROUTEKEY: the gateway routing table is written under the key function it is read with ( the same format string over device.port_link\'s canonical segment ).  B-ROUTE: the boolean acceptance expression guarding local dispatch in UCMM.request (including its enclosing '
               '`if self.route_path is not None`) is evaluated on every cell of the finite abstract domain - configured personality in '
               '{None, False, 0, [], one-segment list, two-segment list with an address link} x request route path in {absent, empty, equal, '
